@@ -107,12 +107,17 @@ def regen(path):
 
 
 def observe(ra, path, ref, res, ks, iters, extra=None, want_regen=True):
+    # raw files and the fresh read-only open first: reads through a live 'r+' handle may touch the files
+    top = top_files(path)
+    vfiles = read_files(os.path.join(path, 'values')) if os.path.isdir(os.path.join(path, 'values')) else None
+    ifiles = read_files(os.path.join(path, 'indices')) if os.path.isdir(os.path.join(path, 'indices')) else None
+    fresh = guarded(lambda: rview(darr.RaggedArray(path), ks, iters))
     o = dict(res=res,
              live=guarded(lambda: rview(ra, ks, iters)),
-             fresh=guarded(lambda: rview(darr.RaggedArray(path), ks, iters)),
-             top=top_files(path),
-             values=read_files(os.path.join(path, 'values')) if os.path.isdir(os.path.join(path, 'values')) else None,
-             indices=read_files(os.path.join(path, 'indices')) if os.path.isdir(os.path.join(path, 'indices')) else None,
+             fresh=fresh,
+             top=top,
+             values=vfiles,
+             indices=ifiles,
              ref=[dict(shape=list(x.shape), data=np.ascontiguousarray(x).tobytes().hex()) for x in ref],
              ks=ks, iters=iters)
     if want_regen:
